@@ -3,7 +3,7 @@
    infinities), every option record (any integer maxiter and stall_limit, any float
    tolerances), every _iter_initialize variant. *)
 From Coq Require Import ZArith List Bool.
-From OMV Require Import Base.Val C09.Model C09.Proofs.
+From OMV Require Import Base.Val C09.Model C09.Proofs C09.ModelLS C09.ProofsLS.
 Import ListNotations.
 Open Scope Z_scope.
 
@@ -83,3 +83,40 @@ Theorem C09_raise_iff_failure : forall o ns,
   raised o ns = true <-> (o_err o = true /\ met_final o (final o ns) = false).
 Proof. exact raise_iff_failure. Qed.
 Print Assumptions C09_raise_iff_failure.
+
+(* ------------------------------------------------------------------------------------------
+   The backtracking loop of ArmijoGoldsteinLS (its own loop, not the shared one).  Quantification:
+   every binary64 objective stream, every integer maxiter, every float rho, c, alpha, both methods.
+   (The AnalysisError / retry path is not modelled.) *)
+
+(* At most maxiter iterations; the counter is the number of _single_iteration calls; two objective
+   evaluations in _iter_initialize plus one per iteration. *)
+Theorem C09_ls_iters_le_maxiter : forall o ns,
+  0 <= t_iter (ls_final o ns) <= Z.max 0 (l_maxiter o) /\
+  t_iter (ls_final o ns) = Z.of_nat (t_single (ls_final o ns)) /\
+  t_read (ls_final o ns) = (2 + t_single (ls_final o ns))%nat.
+Proof. exact ls_iters_le_maxiter. Qed.
+Print Assumptions C09_ls_iters_le_maxiter.
+
+(* The run is the code's while loop; it stops on the FIRST objective value that passes the
+   sufficient-decrease test (Armijo or Goldstein) at its own step length, otherwise only at maxiter:
+   the k-th evaluated point (step length alpha rho^(k-1)) failed the test for every k before the
+   end, and at the end the accepted pair passes the test or maxiter iterations were done. *)
+Theorem C09_ls_accepts_first : forall o ns,
+  exists n, ls_final o ns = ls_iter_body o ns n (ls_init o ns) /\
+    (forall k, (k < n)%nat ->
+       stop_crit o (phi0_of ns) (shrink (l_alpha o) (l_rho o) (Nat.pred k)) (ns (S k)) = false
+       /\ Z.of_nat k < l_maxiter o) /\
+    (stop_crit o (phi0_of ns) (t_alpha (ls_final o ns)) (t_phi (ls_final o ns)) = true
+     \/ l_maxiter o <= t_iter (ls_final o ns)).
+Proof. exact ls_accepts_first. Qed.
+Print Assumptions C09_ls_accepts_first.
+
+(* Final step length: alpha * rho * ... * rho with (iterations - 1) binary64 multiplications (the
+   first iteration re-evaluates at the initial step length); the accepted objective is the last read. *)
+Theorem C09_ls_alpha_geometric : forall o ns,
+  t_alpha (ls_final o ns) =
+  shrink (l_alpha o) (l_rho o) (Nat.pred (t_single (ls_final o ns))) /\
+  t_phi (ls_final o ns) = ns (S (t_single (ls_final o ns))).
+Proof. exact ls_alpha_geometric. Qed.
+Print Assumptions C09_ls_alpha_geometric.
